@@ -767,7 +767,8 @@ def view_discipline(ctx, rule):
                 continue
             par = enclosing_map(f.node)
             env = single_defs(f.node)
-            sel_names = {"self.selection_vector"} | {k for k, v in env.items() if U(v) == "self.selection_vector"}
+            sel_forms = ("self.selection_vector", "np.flatnonzero(self.selection_vector)", "np.where(self.selection_vector)[0]", "np.nonzero(self.selection_vector)[0]")
+            sel_names = set(sel_forms) | {k for k, v in env.items() if U(v).replace(" ", "") in sel_forms}      # the selection, or the positions it selects
             problems = []
             for x in ast.walk(f.node):
                 if not (isinstance(x, ast.Attribute) and isinstance(x.ctx, ast.Load) and U(x.value) == "self.screen"):
